@@ -97,7 +97,7 @@ func freeRun(tw *traceWriter, run int, churn int) {
 			case w := <-conn.outQ:
 				rmu.Lock()
 				x := rr.Intn(100)
-				extra := []int{4, 40, 400, 996, 1000}[rr.Intn(5)]
+				extra := []int{4, 40, -1, 400, 996, -1, 1000}[rr.Intn(7)]
 				delay := time.Duration(rr.Intn(400)) * time.Microsecond
 				rmu.Unlock()
 				id := idOfRaw(w)
@@ -179,11 +179,13 @@ func freeRun(tw *traceWriter, run int, churn int) {
 			snapshot := append([]byte(nil), m.Raw...)
 			h := func(e stun.Event) {
 				var raw []int
+				attrs := [][3]int{}
 				if e.Message != nil {
 					raw = ints(e.Message.Raw)
+					attrs = snapshotAttrs(e.Message)
 				}
 				emit(map[string]interface{}{"k": "handler", "s": i, "p": c.procName(), "kind": evKind(e),
-					"id": idIndex(e.TransactionID), "msg": raw, "t": c.now()})
+					"id": idIndex(e.TransactionID), "msg": raw, "attrs": attrs, "t": c.now()})
 				if i%8 == 2 {
 					time.Sleep(50 * time.Microsecond) // a handler that takes its time: Do must not return before it is through
 				}
